@@ -90,5 +90,6 @@ func rotateFunc(ctx *flags.Context) error {
 		return ctx.Raise(fmt.Errorf("encountered error in scanner: %v", err))
 	}
 
+	d.Commit()
 	return nil
 }
